@@ -28,10 +28,18 @@ CLAIMS.update({
  "C11": ("What FileState::apply writes is what load_entries reads (1 and 2 entries, indices from 0, every header field equal, symbolic user ids and clock) through the real persister on the model file system; index bookkeeping under a failed append is decided too and IS violated (known finding `journalindex`: a failed journal write consumes an index, the next start-up fails with StateFileCorrupted) - the check prints KNOWN-FINDING for it and exits 0.",
          "de-asynced twin; EntryCommand codec and the entry checksum function are stubbed (fixed 9-byte command frame, deterministic checksum stand-in), so tamper evidence under byte corruption is NOT claimed; concurrent applies not covered; fault model = the k-th file write returns Err"),
 })
+CLAIMS.update({
+ "C16": ("Counter updates of the append step: partition / topic / stream message counts and sizes move by exactly the number and stored size of the accepted messages, from an arbitrary valid pre-state; Segment::get_messages_count equals the number of messages the segment holds for every start offset and 1..3 messages.",
+         "append path only (Partition::append_messages, Segment::append_batch, Segment::get_messages_count); the save step (+24 header bytes), segment deletion, purge, partition/topic/stream deletion, restart and the statistics endpoint are NOT covered"),
+})
+CLAIMS.update({
+ "C13": ("Binary codec round trips decode(encode(x)) == x for every field value: named identifiers, polling strategies (all five kinds, any value; an arbitrary 9-byte frame decodes to an error or to a value that re-encodes to the same bytes), the three partitioning kinds as they appear inside a send frame, CreateStream (client or server assigned id) and DeleteStream. A narrow slice of C13.",
+         "sdk BytesSerializable impls only; NOT covered: commands with several identifiers / numeric identifiers (thorough tier, out of memory in this setup), SendMessages with headers, responses (mapper.rs), journal and on-disk encodings, HTTP/JSON, the effect of malformed frames on other connections"),
+})
 PENDING = {
- "C13": "harness file c13_codec.rs exists (8 command round trips) but CBMC exceeds 30 GB on the decoders' wire-length-dependent allocations; not registered until bounded",
+ "C06": "harness file c06_catalogue.rs exists (consumer-group catalogue: unique ids/names, delete, id reuse) but CBMC aborts / exceeds the caps on it; not registered",
+ "C08": "harness file c08_consumer_groups.rs exists (assignment exclusivity and balance, rotation) but even a fully concrete re-assignment needs > 6 min of SAT time through the heap-allocated member list; not registered",
  "C18": "harness file c18_dedup.rs exists (dedup branch of Partition::append_messages, 9 equality patterns) but does not finish within the cap; not registered",
- "C16": "counter updates of the append step are asserted inside the C01 step harnesses; no separate C16 check (delete/load/purge sites) registered yet",
 }
 NA = {
  "C12": "quantifies over interleavings of tokio tasks, a background persister and lock hand-offs; Kani/CBMC execute one thread and tokio's primitives do not compile under Kani (catch_unwind ICE) - the sequential obligations it rests on are checked under C01/C04 harnesses, not relabelled",
